@@ -106,6 +106,25 @@ def NodeOrEdge {K} (a : Arr K) : Prop :=
 
 instance {K} (a : Arr K) : Decidable (NodeOrEdge a) := by unfold NodeOrEdge; infer_instance
 
+/-- a dimension name that is not a grid dimension (`dim_0`, `nCells`, `nVertices`, `x`, …) -/
+def Dim.isOther : Dim → Bool
+  | .other _ => true
+  | _ => false
+
+/-- the element (last) dimension carries a non-grid name -/
+def NonGridName {K} (a : Arr K) : Prop := a.dims.getLast?.any Dim.isOther = true
+
+instance {K} (a : Arr K) : Decidable (NonGridName a) := by unfold NonGridName; infer_instance
+
+/-- node- or edge-SIZED data under a non-grid name: by its length it is (also) a node/edge
+    variable, nothing says it lives on faces — the property's "all node- or edge-sized arrays
+    (must raise), including grids where n_face equals n_node or n_edge" -/
+def SizedUnnamed {K} (g : Grid) (a : Arr K) : Prop :=
+  NonGridName a ∧ (a.shape.getLast? = some g.nNode ∨ a.shape.getLast? = some g.nEdge)
+
+instance {K} (g : Grid) (a : Arr K) : Decidable (SizedUnnamed g a) := by
+  unfold SizedUnnamed; infer_instance
+
 inductive Err | node | edge | other
 deriving DecidableEq, Repr
 
@@ -139,6 +158,18 @@ def integrateAsIs (g : Grid) (areas : List K) (a : Arr K) : Outcome K :=
       else if s = g.nNode then .error .node
       else if s = g.nEdge then .error .edge
       else .error .other
+
+/-- REGRESSION VARIANT (seeded C06f; not what /repo does): the name decides when it is a grid
+    name, otherwise the element kind is inferred from the LENGTH with the Python dict
+    `{n_edge: "n_edge", n_node: "n_node", n_face: "n_face"}` (later keys win, so `n_face` wins ties) -/
+def integrateLenFallback (g : Grid) (areas : List K) (a : Arr K) : Outcome K :=
+  match a.dims.getLast?, a.shape.getLast? with
+  | some (Dim.other _), some s =>
+      if s = g.nFace then .ok (result areas a)
+      else if s = g.nNode then .error .node
+      else if s = g.nEdge then .error .edge
+      else .error .other
+  | _, _ => integrate g areas a
 
 /-- AS-IS legacy `UxDataset.integrate` (deprecated): `np.dot(face_areas, first_variable)` with no
     look at the variable's dimensions.  Only its 1-D fragment is modelled (defined iff the lengths
@@ -203,13 +234,15 @@ instance (v : Option Rat) (p : Rat → Prop) [DecidablePred p] :
 instance (areas a r) : Decidable (SpecValues areas a r) := by unfold SpecValues; infer_instance
 
 /-- **C06**: a face-centred variable is integrated (dims, shape, name, grid, values); a variable
-    whose element dimension is `n_node`/`n_edge` is rejected — whatever the sizes; nothing is
-    demanded for other inputs. -/
+    whose element dimension is `n_node`/`n_edge` is rejected — whatever the sizes; a node- or
+    edge-sized variable under a non-grid name is rejected (in particular when that length happens
+    to equal `n_face`); nothing is demanded for other inputs. -/
 def Spec (g : Grid) (areas : List Rat) (a : Arr Rat) (o : Obs) : Prop :=
   (FaceCentred g a →
      ∃ r, o = .returned r ∧ SpecDims a r ∧ SpecShape a r ∧ SpecName a r ∧ SpecGrid a r ∧
        SpecValues areas a r) ∧
-  (NodeOrEdge a → o = .rejected)
+  (NodeOrEdge a → o = .rejected) ∧
+  (SizedUnnamed g a → o = .rejected)
 
 /-- names of the clauses that fail (empty = `Spec` holds); this is what the driver prints -/
 def failedClauses (g : Grid) (areas : List Rat) (a : Arr Rat) (o : Obs) : List String :=
@@ -225,6 +258,11 @@ def failedClauses (g : Grid) (areas : List Rat) (a : Arr Rat) (o : Obs) : List S
      match o with
      | .rejected => []
      | .returned _ => ["dispatch_rejects"]
+   else []) ++
+  (if SizedUnnamed g a then
+     match o with
+     | .rejected => []
+     | .returned _ => ["unnamed_sized_rejects"]
    else [])
 
 end UxVerif.Integrate
